@@ -23,7 +23,7 @@ import (
 // with ColumnWriter.Flush so the layout is exactly the enumerated one.
 // Oracle: pqref's statistics/page-index checks on the raw bytes (bounds in
 // the column order ignoring NaN, exact null counts/null pages/histograms,
-// truthful boundary order) + agreement of the library's own accessors.
+// truthful boundary order) + agreement of the library's own accessors (incl. the truth of every ascending / descending claim, of each chunk's index and of the combined index MultiRowGroup derives).
 
 type c05Type struct {
 	name   string
@@ -148,7 +148,21 @@ func c05Run(x *engine.X) {
 	streak := false
 	gen := 0
 	if x.Tier != "thorough" {
-		gen = x.Choose(3, "pagegen")
+		gen = x.Choose(4, "pagegen")
+	}
+	if gen == 3 {
+		// every sequence of four single-value or null pages, two per row group:
+		// each chunk's index can claim an order of its own, and the combined
+		// index of the two has a seam between them
+		streak = true
+		n1 := len(t.vals) + 1
+		for i := 0; i < 4; i++ {
+			p := x.Choose(n1, "page4")
+			if rep == "required" && p == 0 {
+				p = 1
+			}
+			pages = append(pages, p)
+		}
 	}
 	if gen == 2 {
 		// every sequence of three single-value or null pages (boundary order
@@ -195,16 +209,19 @@ func c05Run(x *engine.X) {
 		return
 	}
 	cutAfter := -1
-	if len(pages) >= 2 && gen != 2 {
+	if gen == 3 {
+		cutAfter = 1
+	} else if len(pages) >= 2 {
+		// (also for the triples: the combined index of two row groups has seams)
 		cutAfter = x.Choose(len(pages), "rowgroupcut") - 1 // -1 = none, else cut after page i
 	}
 	limit := 0
-	if len(t.limits) > 0 && gen != 2 {
+	if len(t.limits) > 0 && gen < 2 {
 		limit = t.limits[x.Choose(len(t.limits), "cilimit")]
 	}
 	pagev := 2 - x.Choose(2, "pagev")
 	statsOpt := 0
-	if gen != 2 {
+	if gen < 2 {
 		statsOpt = x.Choose(3, "stats")
 	}
 	dict := x.Choose(2, "dict") == 1
@@ -321,11 +338,24 @@ func c05LibraryAccessors(x *engine.X, shape string, data []byte, pf *pqref.File)
 		x.Failf("open-error", shape, "OpenFile: %v", err)
 		return
 	}
+	if rgs := f.RowGroups(); len(rgs) >= 2 {
+		// the index of the row groups seen as one (MultiRowGroup) derives its claims
+		// from the chunks' own and from the bounds at the seams
+		mchunk := parquet.MultiRowGroup(rgs...).ColumnChunks()[0]
+		if mi, err := mchunk.ColumnIndex(); err == nil && mi != nil {
+			if !c05OrderClaim(x, shape, "the combined column index of the row groups", mi, mchunk.Type()) {
+				return
+			}
+		}
+	}
 	for rgi, rg := range f.RowGroups() {
 		chunk := rg.ColumnChunks()[0]
 		ci, err := chunk.ColumnIndex()
 		if err != nil {
 			x.Failf("accessor", shape+";what=ColumnIndex", "ColumnIndex(): %v", err)
+			return
+		}
+		if !c05OrderClaim(x, shape, fmt.Sprintf("the column index of row group %d", rgi), ci, chunk.Type()) {
 			return
 		}
 		pci, err := pf.ReadColumnIndex(rgi, 0)
@@ -406,6 +436,35 @@ func c05LibraryAccessors(x *engine.X, shape string, data []byte, pf *pqref.File)
 	}
 }
 
+// c05OrderClaim: a claimed ascending / descending order must be true of the
+// bounds the index exposes (NaN bounds order nothing and are skipped).
+func c05OrderClaim(x *engine.X, shape, what string, index parquet.ColumnIndex, typ parquet.Type) bool {
+	order := ""
+	switch {
+	case index.IsAscending():
+		order = "ascending"
+	case index.IsDescending():
+		order = "descending"
+	default:
+		return true
+	}
+	prev := -1
+	for i := 0; i < index.NumPages(); i++ {
+		if index.NullPage(i) || isNaNValue(index.MinValue(i)) || isNaNValue(index.MaxValue(i)) {
+			continue
+		}
+		if prev >= 0 {
+			cmin, cmax := typ.Compare(index.MinValue(prev), index.MinValue(i)), typ.Compare(index.MaxValue(prev), index.MaxValue(i))
+			if (order == "ascending" && (cmin > 0 || cmax > 0)) || (order == "descending" && (cmin < 0 || cmax < 0)) {
+				x.Failf("accessor", shape+";what=order-claim("+what+")", "%s claims %s order but page %d has bounds [%v,%v] and page %d has [%v,%v]", what, order, prev, index.MinValue(prev), index.MaxValue(prev), i, index.MinValue(i), index.MaxValue(i))
+				return false
+			}
+		}
+		prev = i
+	}
+	return true
+}
+
 func isNaNValue(v parquet.Value) bool {
 	switch v.Kind() {
 	case parquet.Float:
@@ -422,7 +481,7 @@ func init() {
 	Register(&engine.Prop{
 		ID:    "C05",
 		Level: "exploration",
-		Rule: "19 ordered column types (16-byte values sharing their high half, in pages of up to three values; signed/unsigned ints, float/double with NaN/-0/+-Inf, strings and bytes with 0xFF prefixes, uuid, flba, decimals on int32/int64/flba, date, timestamp, int96, boolean) x {required, optional, repeated} x every sequence of <=2 (3 thorough) pages over the page kinds (quick also: every 3-page streak P,P,Q and every triple of null / single-value pages) x plain or dictionary encoding {all-null, {a}, {a,b}} x row-group cut position x ColumnIndexSizeLimit x page version x statistics options; " +
+		Rule: "19 ordered column types (16-byte values sharing their high half, in pages of up to three values; signed/unsigned ints, float/double with NaN/-0/+-Inf, strings and bytes with 0xFF prefixes, uuid, flba, decimals on int32/int64/flba, date, timestamp, int96, boolean) x {required, optional, repeated} x every sequence of <=2 (3 thorough) pages over the page kinds (quick also: every 3-page streak P,P,Q and every triple of null / single-value pages, each with every row-group cut, and every sequence of four such pages split into two row groups of two) x plain or dictionary encoding {all-null, {a}, {a,b}} x row-group cut position x ColumnIndexSizeLimit x page version x statistics options; " +
 			"non-trivial = >=2 pages",
 		Assumptions: []string{"bounds are judged by pqref from the raw bytes in the column's sort order with NaN ignored, and again through the library's ColumnIndex/Bounds/NullCount accessors"},
 		Bound:       func(string) int { return 0 },
